@@ -70,6 +70,11 @@ async fn env_state_has_not_changed_since_last_successful_execution(
     target_input: &Resources,
     target_output: Option<&Resources>,
 ) -> bool {
+    if target_input.is_empty() {
+        // A target without input is always executed: no state is ever recorded for it.
+        return false;
+    }
+
     if let Some(saved_state) = storage::read_saved_target_env_state(target).await {
         saved_state
             .eq_current_state(target_input, target_output)
